@@ -48,6 +48,15 @@ type Case struct {
 	PointTimes bool
 	Mode       string // batch | stream-runs | stream-each
 	Batches    [][]V  // batch mode: batches; stream-runs: runs of equal-time points; stream-each: one sequence (Batches[0])
+	Backwards  bool   // stream-runs: the runs arrive with DEcreasing time stamps (every run is still a run of its own)
+}
+
+// runTime: the time stamp of batch/run k
+func runTime(c Case, k int) time.Time {
+	if c.Backwards {
+		return tmaxOf(len(c.Batches) - 1 - k)
+	}
+	return tmaxOf(k)
 }
 
 type pt struct {
@@ -68,7 +77,7 @@ func pointsOf(c Case, k int) []pt {
 	for j, v := range c.Batches[k] {
 		t := tmaxOf(k).Add(-50 * time.Second).Add(time.Duration(j*(j+1)/2) * time.Second)
 		if c.Mode == "stream-runs" {
-			t = tmaxOf(k)
+			t = runTime(c, k)
 		}
 		p := pt{v: v, t: t, idx: j, tags: map[string]string{"h": "a", "p": fmt.Sprintf("p%d", j)}, flds: map[string]any{"o": int64(10*k + j)}}
 		if v.K != 'n' {
@@ -408,11 +417,12 @@ func (c Case) script() string {
 }
 
 type result struct {
-	items []kit.Item
-	errs  []kit.ErrRec
-	err   string
-	leak  string
-	pan   string
+	inputAltered string // batch mode: a Fields/Tags map handed to the task was modified
+	items        []kit.Item
+	errs         []kit.ErrRec
+	err          string
+	leak         string
+	pan          string
 }
 
 func run(t *testing.T, c Case) (res result) {
@@ -434,9 +444,23 @@ func run(t *testing.T, c Case) (res result) {
 		switch c.Mode {
 		case "batch":
 			cols := env.TM.BatchCollectors("t")
+			var handed [][]pt
+			defer func() {
+				// nothing the task was handed may have been modified (messages are shared between branches)
+				for k, ps := range handed {
+					fresh := pointsOf(c, k)
+					for j := range ps {
+						if kit.FmtFields(ps[j].flds) != kit.FmtFields(fresh[j].flds) || kit.FmtTags(ps[j].tags) != kit.FmtTags(fresh[j].tags) {
+							res.inputAltered = fmt.Sprintf("batch %d point %d was handed over as fields {%s} tags {%s} and now reads fields {%s} tags {%s}", k, j, kit.FmtFields(fresh[j].flds), kit.FmtTags(fresh[j].tags), kit.FmtFields(ps[j].flds), kit.FmtTags(ps[j].tags))
+						}
+					}
+				}
+			}()
 			for k := range c.Batches {
 				var bps []edge.BatchPointMessage
-				for _, p := range pointsOf(c, k) {
+				ps := pointsOf(c, k)
+				handed = append(handed, ps)
+				for _, p := range ps {
 					bps = append(bps, edge.NewBatchPointMessage(models.Fields(p.flds), models.Tags(p.tags), p.t))
 				}
 				b := edge.NewBufferedBatchMessage(edge.NewBeginBatchMessage("m", models.Tags{"h": "a"}, false, tmaxOf(k), len(bps)), bps, edge.NewEndBatchMessage())
@@ -566,7 +590,11 @@ func describe(c Case) string {
 		}
 		bs = append(bs, "["+strings.Join(vs, " ")+"]")
 	}
-	return fmt.Sprintf("%s %s input %s", c.Mode, strings.ReplaceAll(strings.TrimSpace(c.script()), "\n  ", ""), strings.Join(bs, " "))
+	mode := c.Mode
+	if c.Backwards {
+		mode += "(runs arriving with decreasing time stamps)"
+	}
+	return fmt.Sprintf("%s %s input %s", mode, strings.ReplaceAll(strings.TrimSpace(c.script()), "\n  ", ""), strings.Join(bs, " "))
 }
 
 func itemStr(it kit.Item) string {
@@ -746,6 +774,9 @@ func check(t *testing.T, c Case, r *rep.R) []problem {
 	if res.err != "" {
 		return append(ps, problem{"rejected:" + cls, describe(c) + ": " + res.err})
 	}
+	if res.inputAltered != "" {
+		ps = append(ps, problem{"input-message-altered:" + cls, describe(c) + ": " + res.inputAltered})
+	}
 	items := res.items
 	fail := func(kind, msg string) []problem {
 		return append(ps, problem{kind + ":" + cls, fmt.Sprintf("%s: %s; sink saw %s", describe(c), msg, itemsStr(res.items))})
@@ -761,7 +792,7 @@ func check(t *testing.T, c Case, r *rep.R) []problem {
 				return ps // not generated
 			}
 			wants, judged := f.Ref(pr, isInt)
-			tmax := tmaxOf(k)
+			tmax := runTime(c, k)
 			if c.Mode == "stream-runs" && len(all) == 0 {
 				continue // an empty run does not exist in a stream
 			}
@@ -785,6 +816,9 @@ func check(t *testing.T, c Case, r *rep.R) []problem {
 			}
 			if !emits {
 				// nothing of this batch may appear: the next item (if any) must belong to a later batch
+				if c.Backwards {
+					continue
+				}
 				if len(items) > 0 && itemTime(items[0]).Equal(tmax) && len(pr) == 0 {
 					return fail("emitted-on-empty", fmt.Sprintf("batch %d has no value of the field but something was emitted for it", k))
 				}
@@ -901,7 +935,7 @@ func seqs(alpha []V, maxLen int) [][]V {
 
 func TestCheck(t *testing.T) {
 	r := rep.New("C11", "model_checking",
-		"aggregations on real tasks: every InfluxQL function node (count sum mean median mode min max first last spread stddev percentile(10/50/90/100) distinct top(1/2) bottom(1/2,+tag) elapsed difference cumulativeSum movingAverage(2/3)) x as() x usePointTimes() is run as a real batch task fed through its BatchCollector and as a real stream task. Inputs, exhaustively: every single batch of up to 4 points over 4 int values / 4 float values / 'field missing'; every PAIR of batches of up to 2 points over 2 int, 2 float values and 'missing' (reduce-context reset, field type changing between batches, empty batches in between); stream mode: the same as runs of equal-time points closed by a later point, and (transformations) every sequence of up to 4 points; plus all single batches of up to 3 points over {2^62, 1, -2^62}. Oracle: independent reference implementation of every function (InfluxQL definitions, big-number arithmetic for int sums) deciding value, Go type, time stamp (batch time / selected point's time), name, tags (group tags; selected point's tags and other fields for selectors) and whether anything is emitted at all. states = distinct cases, transitions = batches/points fed")
+		"aggregations on real tasks: every InfluxQL function node (count sum mean median mode min max first last spread stddev percentile(10/50/90/100) distinct top(1/2) bottom(1/2,+tag) elapsed difference cumulativeSum movingAverage(2/3)) x as() x usePointTimes() is run as a real batch task fed through its BatchCollector and as a real stream task. Inputs, exhaustively: every single batch of up to 4 points over 4 int values / 4 float values / 'field missing'; every PAIR of batches of up to 2 points over 2 int, 2 float values and 'missing' (reduce-context reset, field type changing between batches, empty batches in between); stream mode: the same as runs of equal-time points closed by a later point (pairs of runs also arriving with decreasing time stamps), and (transformations) every sequence of up to 4 points; plus all single batches of up to 3 points over {2^62, 1, -2^62}. Oracle: independent reference implementation of every function (InfluxQL definitions, big-number arithmetic for int sums) deciding value, Go type, time stamp (batch time / selected point's time), name, tags (group tags; selected point's tags and other fields for selectors) and whether anything is emitted at all; in batch mode the maps handed to the task must be unmodified afterwards (messages are shared between sibling branches). states = distinct cases, transitions = batches/points fed")
 	defer r.Write()
 	r.Assumption("ties: any tied point is accepted for min/max/percentile/top/bottom, any most frequent value for mode")
 	r.Assumption("stddev of a single value and int sums/spreads outside int64 are not judged")
@@ -987,6 +1021,11 @@ func TestCheck(t *testing.T) {
 					if f.Out != "transform" {
 						if !runCase(Case{Fn: fi, As: as, PointTimes: ptm, Mode: "stream-runs", Batches: in}) {
 							return
+						}
+						if len(in) == 2 && len(in[0]) > 0 && len(in[1]) > 0 && as == "" {
+							if !runCase(Case{Fn: fi, As: as, PointTimes: ptm, Mode: "stream-runs", Batches: in, Backwards: true}) {
+								return
+							}
 						}
 					} else if len(in) == 1 {
 						if !runCase(Case{Fn: fi, As: as, PointTimes: ptm, Mode: "stream-each", Batches: in}) {
